@@ -1,6 +1,7 @@
 package bnet
 
 import (
+	"math/big"
 	"context"
 	"fmt"
 	"strings"
@@ -94,6 +95,8 @@ func packet(b *common.Beacon, id string) *proto.BeaconPacket {
 	return &proto.BeaconPacket{Round: b.Round, Signature: append([]byte{}, b.Signature...), PreviousSignature: append([]byte(nil), b.PreviousSig...), Metadata: &proto.Metadata{BeaconID: id}}
 }
 
+var bn254P, _ = new(big.Int).SetString("21888242871839275222246405745257275088696311157297823662689037894645226208583", 10)
+
 func (s *simClient) SyncChain(ctx context.Context, p dnet.Peer, in *proto.SyncRequest, _ ...dnet.CallOption) (chan *proto.BeaconPacket, error) {
 	var idx int
 	fmt.Sscanf(p.Address(), "peer-%d", &idx)
@@ -143,6 +146,23 @@ func (s *simClient) SyncChain(ctx context.Context, p dnet.Peer, in *proto.SyncRe
 		case "emptysig":
 			if j == arg {
 				pk.Signature = nil
+			}
+		case "trailing":
+			// the genuine signature followed by two more bytes
+			if j >= arg {
+				pk.Signature = append(append([]byte{}, pk.Signature...), 0x00, 0x01)
+			}
+		case "xplusp":
+			// the genuine signature with its first 32-byte coordinate x sent as x+p (p: the BN254 base field modulus): the
+			// same curve point for a decoder that reduces instead of refusing, garbage for every other scheme
+			if j >= arg && len(pk.Signature) >= 32 {
+				x := new(big.Int).SetBytes(pk.Signature[:32])
+				x.Add(x, bn254P)
+				if x.BitLen() <= 256 {
+					sig := append([]byte{}, pk.Signature...)
+					x.FillBytes(sig[:32])
+					pk.Signature = sig
+				}
 			}
 		case "skip":
 			if j == arg {
